@@ -38,14 +38,14 @@ impl<'a> Ctx<'a> {
 	}
 
 	fn fund(&mut self) {
-		while self.w.wallets[0].info(true, 1).map(|i| i.1.amount_currently_spendable).unwrap_or(0) < 100_000_000_000 {
-			if self.w.mine(Some(0), true).is_err() {
-				break;
-			}
-		}
-		while self.w.wallets[1].info(true, 1).map(|i| i.1.amount_currently_spendable).unwrap_or(0) < 100_000_000_000 {
-			if self.w.mine(Some(1), true).is_err() {
-				break;
+		// (bounded: a wallet whose refresh keeps failing must not turn into an endless mining loop)
+		for i in 0..2 {
+			let mut guard = 0;
+			while self.w.wallets[i].info(true, 1).map(|x| x.1.amount_currently_spendable).unwrap_or(0) < 100_000_000_000 && guard < 12 {
+				if self.w.mine(Some(i), true).is_err() {
+					break;
+				}
+				guard += 1;
 			}
 		}
 	}
@@ -55,7 +55,15 @@ impl<'a> Ctx<'a> {
 			if let Ok(txs) = self.w.wallets[i].all_txs() {
 				for t in txs {
 					if !t.confirmed && (t.tx_type == TxLogEntryType::TxSent || t.tx_type == TxLogEntryType::TxReceived) {
-						let _ = self.w.wallets[i].cancel(Some(t.id), None);
+						if self.w.wallets[i].cancel(Some(t.id), None).is_err() {
+							// the owner-level cancel refreshes first; if that refresh fails the pending transaction is
+							// released through the internal function so that later cases start from a clean wallet
+							let wal = &self.w.wallets[i];
+							let parent = t.parent_key_id.clone();
+							let _ = (|| -> Result<(), libwallet::Error> {
+								with_backend!(wal, b, { libwallet::verif::tx::cancel_tx(&mut **b, wal.m(), &parent, Some(t.id), None) })
+							})();
+						}
 					}
 				}
 			}
@@ -190,7 +198,10 @@ fn step_case(cx: &mut Ctx, rng: &mut Rng, at: At, delta: i64, special: Option<u6
 
 /// a refresh at a height at or beyond the cutoff cancels the wallet's own unconfirmed transaction
 /// and releases its outputs; transactions without cutoff or with a later one are untouched
-fn refresh_case(cx: &mut Ctx, rng: &mut Rng, role_sender: bool, n_other: usize, others_first: bool, delta: i64) {
+fn refresh_case(cx: &mut Ctx, rng: &mut Rng, role: u8, n_other: usize, others_first: bool, delta: i64) {
+	// role 0: the sender's wallet looks; 1: the recipient's; 2: a self-send inside one account (its two entries share the slate id)
+	let role_sender = role != 1;
+	let self_send = role == 2;
 	cx.fund();
 	cx.cleanup();
 	if cx.observe().is_none() {
@@ -229,6 +240,9 @@ fn refresh_case(cx: &mut Ctx, rng: &mut Rng, role_sender: bool, n_other: usize, 
 		if !role_sender {
 			cx.w.wallets[1].receive(&s, None)?;
 		}
+		if self_send {
+			cx.w.wallets[0].receive(&s, None)?;
+		}
 		Ok((s.id, s.ttl_cutoff_height))
 	})();
 	let (id, cutoff) = match r {
@@ -253,24 +267,35 @@ fn refresh_case(cx: &mut Ctx, rng: &mut Rng, role_sender: bool, n_other: usize, 
 	cx.rep.eval();
 	let wal = &cx.w.wallets[wi];
 	let r = catch(|| wal.refresh());
-	let case = json!({"job":"c17","kind":"refresh","role": if role_sender {"sender"} else {"recipient"}, "cutoff": cutoff, "tip": tip, "other_pending": other_ids.len(), "others_created_first": others_first});
+	let case = json!({"job":"c17","kind":"refresh","role": if self_send {"self-send in one account"} else if role_sender {"sender"} else {"recipient"}, "cutoff": cutoff, "tip": tip, "other_pending": other_ids.len(), "others_created_first": others_first});
 	match r {
 		Err((loc, msg)) => cx.rep.violation(&format!("C17|panic|{}", loc), &msg, case),
-		Ok(Err(e)) => cx.rep.count(&format!("refresh-error:{}", err_kind(&e))),
+		Ok(Err(e)) => {
+			// nothing in these cases gives a refresh a reason to fail (the node is reachable, the transaction was never
+			// broadcast): a failing refresh that leaves the expired transaction live has not released it
+			cx.rep.count(&format!("refresh-error:{}", err_kind(&e)));
+			let txs = wal.all_txs().unwrap_or_default();
+			let live = txs.iter().any(|t| t.tx_slate_id == Some(id) && !t.confirmed && (t.tx_type == TxLogEntryType::TxSent || t.tx_type == TxLogEntryType::TxReceived));
+			if tip >= cutoff && live {
+				cx.rep.violation(&format!("C17|expired-transaction-not-released|refresh-fails:{}", err_kind(&e)), &format!("the refresh at tip {} >= cutoff {} failed with {:?} and the wallet's own unconfirmed transaction is still live", tip, cutoff, e), case);
+			}
+		}
 		Ok(Ok(false)) => cx.rep.count("refresh-not-validated"),
 		Ok(Ok(true)) => {
 			let txs = wal.all_txs().unwrap_or_default();
 			let outs = wal.all_outputs().unwrap_or_default();
-			let e = txs.iter().find(|t| t.tx_slate_id == Some(id));
+			let es: Vec<&libwallet::TxLogEntry> = txs.iter().filter(|t| t.tx_slate_id == Some(id)).collect();
 			let expired = tip >= cutoff;
-			match e {
-				None => cx.rep.inconclusive("entry vanished"),
-				Some(e) => {
+			if es.is_empty() {
+				cx.rep.inconclusive("entry vanished");
+			}
+			for e in es {
+				{
 					let cancelled = e.tx_type == TxLogEntryType::TxSentCancelled || e.tx_type == TxLogEntryType::TxReceivedCancelled;
 					let still_reserved = outs.iter().any(|o| o.tx_log_entry == Some(e.id) && o.root_key_id == e.parent_key_id && (o.status == OutputStatus::Locked || o.status == OutputStatus::Unconfirmed));
 					if expired && (!cancelled || still_reserved) {
 						cx.rep.violation(
-							&format!("C17|expired-transaction-not-released|{}", if role_sender { "sender" } else { "recipient" }),
+							&format!("C17|expired-transaction-not-released|{}", if self_send { "self-send" } else if role_sender { "sender" } else { "recipient" }),
 							&format!("refresh at tip {} >= cutoff {} left the wallet's own unconfirmed transaction {} (cancelled: {}, outputs still reserved/pending: {}) with {} other pending transactions", tip, cutoff, type_str(&e.tx_type), cancelled, still_reserved, other_ids.len()),
 							case.clone(),
 						);
@@ -297,7 +322,10 @@ fn refresh_case(cx: &mut Ctx, rng: &mut Rng, role_sender: bool, n_other: usize, 
 	if cx.rep.samples.len() < 6 {
 		cx.rep.sample(json!({"kind": "refresh", "role": if role_sender { "sender" } else { "recipient" }, "cutoff": cutoff, "tip": tip, "other_pending": other_ids.len(), "others_created_first": others_first}));
 	}
-	cx.rep.distinct(&("refresh", role_sender, n_other, others_first, delta));
+	cx.rep.distinct(&("refresh", role, n_other, others_first, delta));
+	if self_send {
+		cx.rep.count("refresh-case:self-send-in-one-account");
+	}
 	cx.cleanup();
 }
 
@@ -327,7 +355,7 @@ pub fn run(a: &Args) {
 				}
 			}
 		}
-		for role_sender in [true, false].iter() {
+		for role_sender in [0u8, 1, 2].iter() {
 			for n_other in 0..4usize {
 				for others_first in [true, false].iter() {
 					for delta in [-1i64, 0, 1].iter() {
